@@ -385,6 +385,17 @@ def discharge(site, fx, policy):
                             return "D-counter: 64-bit local counter incremented by 1 per loop iteration (cannot reach 2^64 iterations)"
                         if l.get("ty") == "u32" and policy.get("a_size"):
                             return "D-counter-u32: 32-bit counter incremented once per parsed record (assumption A-size: input < 4 GiB)"
+                # the same counter idiom with the increment moved into a private `&mut self` helper that is only ever called from
+                # inside loops (once per loop iteration per call site): `self.class.members_len += 1` in ClassInProgress::push_member
+                if one == 1 and not in_loop(site.parents):
+                    root = lhs
+                    while root.get("k") in ("Field", "Deref"):
+                        root = F.strip(root["e"])
+                    if root.get("k") in ("Var", "Upvar") and (root.get("ty") or "").startswith("&mut ") and called_only_from_loops(fx, site.body["path"]):
+                        if l.get("ty") in ("usize", "u64"):
+                            return "D-counter: 64-bit counter incremented by 1 per call of a private helper that is only called from inside loops"
+                        if l.get("ty") == "u32" and policy.get("a_size"):
+                            return "D-counter-u32: 32-bit counter incremented once per call of a private helper only called per parsed record (assumption A-size: input < 4 GiB)"
                 # i += 1 under a dominating i < len(x): i + 1 <= len(x) <= isize::MAX
                 if one == 1 and lhs.get("k") in ("Var", "Upvar"):
                     for f, pol in get_facts():
@@ -401,6 +412,13 @@ def discharge(site, fx, policy):
                     if l.get("ty") == "u32" and policy.get("a_size"):
                         return "D-counter-u32: running total of per-record counters (assumption A-size: input < 4 GiB => < 2^32 records)"
                 return None
+            # `S { count: old.count + 1, ..old }`: a 64-bit field that is only ever 0, carried over, or incremented by one
+            lf = F.strip(l)
+            par0 = site.parents[-1] if site.parents else None
+            if int_lit(r) == 1 and lf.get("k") == "Field" and site.ty in ("usize", "u64") and field_is_unit_counter(fx, lf["name"]):
+                for q_ in reversed(site.parents[-3:]):
+                    if q_.get("k") == "Adt" and any(f_["name"] == lf["name"] and any(x is n for x in F.walk(f_["e"])) for f_ in q_["fields"]):
+                        return "D-counter: 64-bit unit counter (only ever 0, carried over or +1) incremented in a struct update"
             # `x = x + 1` inside a loop is the counter idiom too
             par = site.parents[-1] if site.parents else None
             while par is not None and par.get("k") in ("Borrow", "Deref", "Coerce") and len(site.parents) > 1:
@@ -578,6 +596,39 @@ def discharge(site, fx, policy):
 
 
 _unit_counter_cache = {}
+_loop_callers_cache = {}
+
+
+def called_only_from_loops(fx, path, depth=0):
+    """`path` is a private, non-recursive function of the crate and every call of it sits inside a loop body (or inside another such
+    helper): it runs at most (static call sites) x (loop iterations) times"""
+    key = (id(fx), path)
+    if key in _loop_callers_cache:
+        return _loop_callers_cache[key]
+    _loop_callers_cache[key] = False        # (recursion guard: a cycle is not accepted)
+    b = fx.bodies.get(path)
+    if b is None or b.get("reachable_pub") or b.get("kind") not in ("Fn", "AssocFn") or depth > 3:
+        return False
+    n_calls, ok = 0, True
+    for q, bq in fx.bodies.items():
+        if bq["krate"] != "proguard":
+            continue
+        for n, parents in F.walk_with_parents(bq["body"]):
+            if n.get("k") in ("Call", "Zst") and "fn" in n and fx.by_dp.get(n["fn"].get("dp")) == path:
+                if n.get("k") == "Zst":
+                    ok = False          # taken as a function value: call sites unknown
+                    continue
+                n_calls += 1
+                if q == path:
+                    ok = False
+                elif in_loop(parents):
+                    continue
+                else:
+                    owner = q.split("::{closure")[0]
+                    if not (owner != path and called_only_from_loops(fx, owner, depth + 1)):
+                        ok = False
+    _loop_callers_cache[key] = ok and n_calls >= 1
+    return _loop_callers_cache[key]
 
 
 def field_is_unit_counter(fx, name):
@@ -600,7 +651,15 @@ def field_is_unit_counter(fx, name):
             if k == "Adt":
                 for f_ in n["fields"]:
                     if f_["name"] == name and int_lit(f_["e"]) != 0:
-                        okc = False
+                        # `S { count: old.count + 1, ..old }` is the same increment written as a struct update
+                        e_ = F.strip(f_["e"])
+                        if e_.get("k") == "Binary" and e_["op"] == "Add" and int_lit(e_["r"]) == 1 and F.strip(e_["l"]).get("k") == "Field" \
+                                and F.strip(e_["l"])["name"] == name:
+                            n_inc += 1
+                        elif e_.get("k") == "Field" and e_["name"] == name:
+                            pass            # carried over unchanged
+                        else:
+                            okc = False
     _unit_counter_cache[key] = okc and n_inc >= 1
     return _unit_counter_cache[key]
 
@@ -684,8 +743,25 @@ def pos_over_same(x, pos, fam, depth=0):
     if pos_n.get("k") not in ("Var", "Upvar"):
         return None
     srcs = fam.origins.sources(pos_n["id"])
-    if not srcs:
-        return None
+    if not srcs or all(h == "param" for _, _, h in srcs):
+        # parameter of a closure handed to Option::map / map_or / and_then: it receives the Some-payload of the receiver
+        use = None
+        for m in fam.members[1:]:
+            o = FL.Origins(m)
+            if pos_n["id"] in o.src and any(h == "param" for _, _, h in o.src[pos_n["id"]]):
+                use = fam.closure_use(m["path"])
+                break
+        if not use or not F.is_call(use[0], "std::option::Option::<T>::map_or", "std::option::Option::<T>::map",
+                                    "std::option::Option::<T>::map_or_else", "std::option::Option::<T>::and_then"):
+            return None
+        recv = value_expr(use[0]["args"][0], fam)
+        recv = FL.peel(recv) if recv is not None else None
+        if recv is None or not F.is_call(recv, *POSITION_CALLS):
+            return None
+        seq = iter_source(recv["args"][0])
+        if seq is None or not FL.same_place(seq, x) or (reassigned(x, fam) and F.strip(x).get("k") in ("Var", "Upvar")):
+            return None
+        return "closure parameter = Some-payload of position() over the same (unmodified) sequence"
     if len(srcs) == 1 and srcs[0][0] == () and srcs[0][2] == "let" and srcs[0][1] is not None and depth < 3 \
             and not fam.origins.is_reassigned(pos_n["id"]):
         init = FL.peel(srcs[0][1]) if FL.try_operand(F.strip(srcs[0][1])) is None else None
@@ -892,8 +968,34 @@ def upper_bound(n, fam, depth=0):
 
 def str_lit(n):
     n = F.strip(n)
+    while n.get("k") in ("Borrow", "Deref"):
+        n = F.strip(n["e"])
     if n.get("k") == "Lit" and n["lit"]["t"] in ("str", "char"):
         return n["lit"]["v"]
+    # a named constant holding a string / char literal
+    if n.get("k") == "Const" and isinstance(n.get("val"), dict):
+        v = n["val"]
+        if v.get("t") == "pretty" and re.match(r'^"([^"\\]|\\.)*"$', (v.get("v") or "").strip()):
+            try:
+                import ast
+                return ast.literal_eval((v["v"] or "").strip())
+            except Exception:
+                return None
+        if v.get("t") == "int" and n.get("ty") == "char" and 0 <= v["v"] < 0x110000:
+            return chr(v["v"])
+    return None
+
+
+def len_lit(n):
+    """an integer literal, or `<string literal or string constant>.len()`"""
+    v = int_lit(n)
+    if v is not None:
+        return v
+    n = FL.peel(n)
+    if F.is_call(n, "core::str::<impl str>::len") and len(n["args"]) == 1:
+        sl = str_lit(n["args"][0])
+        if sl is not None:
+            return len(sl.encode("utf-8"))
     return None
 
 
@@ -923,12 +1025,12 @@ def recipe_prefix_suffix(len_expr, sub_rhs, range_site, facts):
         if not FL.same_place(sx, x) or start is None or end is None:
             return None
         e = F.strip(end)
-        if int_lit(start) == len(P) and e.get("k") == "Binary" and e["op"] == "Sub" and int_lit(e["r"]) == len(Q) \
+        if len_lit(start) == len(P) and e.get("k") == "Binary" and e["op"] == "Sub" and len_lit(e["r"]) == len(Q) \
                 and F.is_call(FL.peel(e["l"]), *LEN_CALLS) and FL.same_place(FL.peel(e["l"])["args"][0], x):
             return "D-recipe(prefix/suffix): dominated by starts_with(%r) && ends_with(%r): len >= %d, cut points are ASCII boundaries" % (P, Q, len(P) + len(Q))
         return None
     le = FL.peel(len_expr)
-    if F.is_call(le, *LEN_CALLS) and FL.same_place(le["args"][0], x) and int_lit(sub_rhs) is not None and int_lit(sub_rhs) <= len(P) + len(Q):
+    if F.is_call(le, *LEN_CALLS) and FL.same_place(le["args"][0], x) and len_lit(sub_rhs) is not None and len_lit(sub_rhs) <= len(P) + len(Q):
         return "D-recipe(prefix/suffix): len(x) >= %d by starts_with(%r) && ends_with(%r)" % (len(P) + len(Q), P, Q)
     return None
 
